@@ -1,7 +1,7 @@
 (** C09 — the hypotheses of the theorems are satisfiable: an interpreter that satisfies
     [ExecOK], and concrete transactions run through the extracted entry points. *)
 From Coq Require Import List ZArith NArith Bool Lia.
-From Kardia Require Import Base.Int64 C09.Model C09.ProofsBase C09.ProofsVM C09.ProofsTx Generated.C09Facts.
+From Kardia Require Import Base.Int64 C09.Model C09.ProofsBase C09.ProofsVM C09.ProofsTx C09.ProofsNonneg Generated.C09Facts.
 Import ListNotations.
 Local Open Scope Z_scope.
 
@@ -62,3 +62,12 @@ Example ex_block :
   let b := commit_block64 run_ex ca_ex env_ex st_ex [bad; msg_ex] in
   b_pool b = 100000 - 21172 /\ b_cum b = 21172 /\ length (b_receipts b) = 1%nat /\ b_panic b = false.
 Proof. vm_compute. repeat split. Qed.
+
+(** an interpreter that uses all gas and touches nothing satisfies both contracts *)
+Definition run_idle (s : state) (ci : call_input) : run_output :=
+  {| ro_err := VOk; ro_gas := 0; ro_retlen := 0; ro_retcode := 0%N; ro_refund := 0; ro_burn := 0;
+     ro_writes := [] |}.
+Lemma run_idle_ok : ExecOK run_idle.
+Proof. constructor; intros; cbn in *; try lia; try contradiction. Qed.
+Lemma run_idle_nonneg : RunNonneg run_idle.
+Proof. intros s ci H a. exact (H a). Qed.
